@@ -120,33 +120,38 @@ func c22Edge(r *c22Seg, typ, s, peer int) *solutionEdge {
 
 // VerifC22Combine: clause (b). For every segment type, shortcut index and peering flag the initial
 // SegID chosen by the real calculateBeta makes every hop of the resulting path segment validate with
-// its construction-time accumulator value.
+// its construction-time accumulator value. The (type, shortcut, peer) combinations of an n-entry
+// segment are enumerated in one run; SegID and all MAC bytes are symbolic throughout.
 func VerifC22Combine() {
 	n := verif.Param("n")
 	r := c22Segment(n)
-	typ := verif.Choose("type", 3) // 0 up, 1 core, 2 down
-	s := verif.Choose("shortcut", n)
-	peer := verif.Choose("peer", 2)
-	// peering links join an up and a down segment; core segments have no peering use
-	verif.Assume(!(typ == 1 && peer != 0))
-	init := calculateBeta(c22Edge(&r, typ, s, peer))
-	verif.Observe("init", typ, s, peer, init)
-	c22Walk(&r, n, typ == 2, s, peer != 0, init)
-	switch {
-	case typ == 2 && peer != 0:
-		verif.Cover("down-peer")
-	case typ == 2 && s != 0:
-		verif.Cover("down-shortcut")
-	case typ == 2:
-		verif.Cover("down-full")
-	case typ == 1:
-		verif.Cover("core")
-	case peer != 0:
-		verif.Cover("up-peer")
-	case s != 0:
-		verif.Cover("up-shortcut")
-	default:
-		verif.Cover("up-full")
+	for typ := 0; typ < 3; typ++ { // 0 up, 1 core, 2 down
+		for s := 0; s < n; s++ {
+			for peer := 0; peer < 2; peer++ {
+				if typ == 1 && peer != 0 {
+					continue // peering links join an up and a down segment; core segments have no peering use
+				}
+				init := calculateBeta(c22Edge(&r, typ, s, peer))
+				verif.Observe("init", typ, s, peer, init)
+				c22Walk(&r, n, typ == 2, s, peer != 0, init)
+				switch {
+				case typ == 2 && peer != 0:
+					verif.Cover("down-peer")
+				case typ == 2 && s != 0:
+					verif.Cover("down-shortcut")
+				case typ == 2:
+					verif.Cover("down-full")
+				case typ == 1:
+					verif.Cover("core")
+				case peer != 0:
+					verif.Cover("up-peer")
+				case s != 0:
+					verif.Cover("up-shortcut")
+				default:
+					verif.Cover("up-full")
+				}
+			}
+		}
 	}
 }
 
